@@ -268,6 +268,38 @@ type wScenario func(sink *Sink, rng *rand.Rand, scratch string) *wHist
 
 func wScenarios(prop, tier string, rng *rand.Rand) []wScenario {
 	var out []wScenario
+	// the mint rotates while the wallet is running and the first thing the wallet does afterwards is a send that needs a swap
+	// (the outputs of that swap are on the new keyset and must use - and advance - the new keyset's counter)
+	for _, fee := range []uint{0, 100} {
+		fee := fee
+		out = append(out, func(sink *Sink, rng *rand.Rand, scratch string) *wHist {
+			h := newWHist(sink, rng, scratch, prop, wCfg{fees: []uint{fee}, feePct: []uint64{1}, homes: []int{0, 0}})
+			h.nontrivial = true
+			h.OpMint(0, 0, 64, true, 0)
+			// hand out every 1 sat proof, so that the next send of 1 sat has to split a larger proof
+			ones := 0
+			for _, p := range h.wal(0).store.inner.GetProofs() {
+				if p.Amount == 1 {
+					ones++
+				}
+			}
+			for i := 0; i < ones; i++ {
+				h.OpSend(0, 0, 1, false, true, 0)
+			}
+			h.OpRotate(0, fee)
+			h.OpSend(0, 0, 1, false, true, 0)
+			h.OpReceive(1, len(h.w.tokens)-1, false, 0)
+			h.OpMint(0, 0, 8, true, 0)
+			h.OpMint(0, 0, 8, true, 0)
+			h.OpMint(0, 0, 8, true, 0)
+			h.OpSend(0, 0, 5, false, true, 0)
+			h.OpRestore(0)
+			if prop == "C19" {
+				h.OpCheck(0)
+			}
+			return h
+		})
+	}
 	for _, fee := range wFees {
 		fee := fee
 		// mint, send that needs a swap, receive, melt, reclaim: the paths of C08's quantifier in one history
@@ -326,29 +358,6 @@ func wScenarios(prop, tier string, rng *rand.Rand) []wScenario {
 		}
 		return h
 	})
-	// the mint rotates while the wallet is running and the first thing the wallet does afterwards is a send that needs a swap
-	// (the outputs of that swap are on the new keyset and must use - and advance - the new keyset's counter)
-	for _, fee := range []uint{0, 100} {
-		fee := fee
-		out = append(out, func(sink *Sink, rng *rand.Rand, scratch string) *wHist {
-			h := newWHist(sink, rng, scratch, prop, wCfg{fees: []uint{fee}, feePct: []uint64{1}, homes: []int{0, 0}})
-			h.nontrivial = true
-			h.OpMint(0, 0, 64, true, 0)
-			h.OpMint(0, 0, 31, true, 0)
-			h.OpRotate(0, fee)
-			h.OpSend(0, 0, 11, false, true, 0)
-			h.OpReceive(1, len(h.w.tokens)-1, false, 0)
-			h.OpMint(0, 0, 8, true, 0)
-			h.OpMint(0, 0, 8, true, 0)
-			h.OpMint(0, 0, 8, true, 0)
-			h.OpSend(0, 0, 5, false, true, 0)
-			h.OpRestore(0)
-			if prop == "C19" {
-				h.OpCheck(0)
-			}
-			return h
-		})
-	}
 	// MintSwap for every Lightning outcome (C17)
 	for _, outcome := range []int{0, 1, 2} {
 		outcome := outcome
